@@ -7,10 +7,11 @@ import ParanoidModel.Driver.BM
 import ParanoidModel.Driver.BitSeq
 import ParanoidModel.Driver.Bookkeeping
 import ParanoidModel.Driver.Suite
+import ParanoidModel.Driver.Ec
 open Paranoid.Driver
 
 /-- all dispatchers, tried in order. -/
-def dispatchers : List Dispatcher := [basicOps, ntheoryOps, factoringOps, rsaCheckOps, ecdsaOps, closedFormOps, rngOps, bmOps, bitseqOps, bookkeepingOps, suiteOps]
+def dispatchers : List Dispatcher := [basicOps, ntheoryOps, factoringOps, rsaCheckOps, ecdsaOps, closedFormOps, rngOps, bmOps, bitseqOps, bookkeepingOps, suiteOps, ecOps]
 
 def respond (regs : List (String × String)) (line : String) : String :=
   let toks := ((line.trimAscii.toString.splitOn " ").filter (· ≠ "")).map fun t =>
